@@ -383,6 +383,49 @@ def pure_match_rule(rep, f, rid):
            "%s assigns %s at line %d: matching is no longer pure (shared compiled expressions race)" % bad[0], "src/xercesc/util/regx/RegularExpression.cpp")
 
 
+GRAMMAR_MUTATORS = ("putElemDecl", "putEntityDecl", "putNotationDecl", "putGroupElemDecl", "putAnnotation")
+SCANNER_CLASSES = ("IGXMLScanner", "DGXMLScanner", "SGXMLScanner", "XSAXMLScanner", "WFXMLScanner", "XMLScanner")
+
+
+def cached_grammar_rule(rep, f):
+    import re
+    from ..engines import guard
+    rep.rule("C17.e", "a parser does not write into a cached grammar: a grammar taken from the grammar pool (use-cached-grammar) may be "
+             "shared by every parser on that pool, and the pool's lock only stops the *pool* from changing; in the scanners every "
+             "call that adds a declaration to the current grammar (Grammar::putElemDecl / putEntityDecl / putNotationDecl ... on "
+             "fGrammar or fDTDGrammar) is unreachable when fUseCachedGrammar is set (CFG, unreachable under assumption) — "
+             "undeclared elements met in a document belong in the scanner's own pool")
+    sites = {}
+    for x in f.kind("call"):
+        c = x["x"]
+        fn = x["_fn"]
+        if fn.get("cls") in SCANNER_CLASSES and c[1].split("::")[-1] in GRAMMAR_MUTATORS and c[2] and c[2][0] == "f" \
+                and c[2][1].split("::")[-1] in ("fGrammar", "fDTDGrammar", "fSchemaGrammar"):
+            sites.setdefault((fn["q"], fn["file"]), []).append(x)
+    if not sites:
+        raise AnalysisBroken("C17.e: no scanner call of a grammar mutator found (the guarded root-element sites are expected)")
+    tus = sorted({os.path.join(core.REPO, fl) for (_, fl) in sites if fl.endswith(".cpp")})
+    g = core.run_xa(tus, cfg="^(" + "|".join(sorted({re.escape(q) for (q, _) in sites})) + ")$", flat=False)
+    n = 0
+    for (q, fl), xs in sorted(sites.items()):
+        for raw in g.cfgs.get(q, []):
+            cfg = guard.Cfg(raw)
+
+            def is_mut(c):
+                return c[0] == "c" and c[1].split("::")[-1] in GRAMMAR_MUTATORS and c[2] and c[2][0] == "f" and \
+                    c[2][1].split("::")[-1] in ("fGrammar", "fDTDGrammar", "fSchemaGrammar")
+            allsites = guard.sites(cfg, is_mut)
+            live = guard.reachable_sites(cfg, is_mut, lambda leaf: True if (leaf[0] == "f" and leaf[1].endswith("::fUseCachedGrammar")) else None)
+            for b, i, el in allsites:
+                n += 1
+                bad = any(e2 is el for _, _, e2 in live)
+                rep.ob("C17.e", "%s@%s:%s" % (q, el["x"][1].split("::")[-1], el.get("l")), not bad,
+                       "unreachable with a cached grammar" if not bad else
+                       "%s (line %s) adds a declaration to the current grammar also when it comes from the grammar pool: an unsynchronised "
+                       "write into an object that other parsers read" % (q, el.get("l")), "%s:%s" % (fl, el.get("l", 0)))
+    rep.floor("C17.e", n, 2)
+
+
 def run(rep):
     f = core.library_facts()
     rep.units.update(os.path.relpath(t, core.REPO) for t in f.tus)
@@ -392,6 +435,7 @@ def run(rep):
     guarded_objects(rep, f, I)
     lock_order(rep, f)
     lazy_faulting(rep, f)
+    cached_grammar_rule(rep, f)
     rep.undecided += ["data-race freedom of state reached through pointers held in init-only globals",
                       "result equality across schedules",
                       "DTDGrammar::setValidated written by every validating parse on a shared cached grammar (plain setter, outside the rule pattern) — observed"]
